@@ -78,7 +78,8 @@ pub fn uist_snap(e: &uv::UistV1) -> Value {
 }
 
 fn run_uist(sc: &Value) -> Value {
-    let mut e = uv::UistV1::new();
+    // both public constructors must give the same machine
+    let mut e = if sc.get("via_default").and_then(|x| x.as_bool()) == Some(true) { uv::UistV1::default() } else { uv::UistV1::new() };
     let mut snaps = vec![uist_snap(&e)];
     let mut results = Vec::new();
     for op in arr(&sc["ops"]) {
@@ -198,7 +199,7 @@ pub fn jura_snap(e: &jv::JuraV1) -> Value {
 }
 
 fn run_jura(sc: &Value) -> Value {
-    let mut e = jv::JuraV1::new();
+    let mut e = if sc.get("via_default").and_then(|x| x.as_bool()) == Some(true) { jv::JuraV1::default() } else { jv::JuraV1::new() };
     let mut snaps = vec![jura_snap(&e)];
     let mut results = Vec::new();
     let mut inserted = Vec::new();
